@@ -92,6 +92,24 @@ func c07Scenarios(run *core.Run) []*protoScenario {
 			scs = append(scs, &sk2)
 		}
 	}
+	if run.Thorough() {
+		// unbounded DFS for one batch of 3 tasks (no fault; a failing middle task; a failing first task)
+		for _, side := range []string{"enc", "dec"} {
+			nblk := 3
+			if side == "dec" {
+				nblk = 2 // tasks 1,2 decode, task 3 meets the end marker
+			}
+			sc := base(side, 3, nblk)
+			sc.Mode, sc.Bound, sc.Runs = "dfs", -1, 400000
+			scs = append(scs, &sc)
+			for _, id := range []int32{1, 2} {
+				f := base(side, 3, nblk)
+				f.Fault = sched.Fault{ID: id, Step: kio.VerifIOEnd, Nth: 1}
+				f.Mode, f.Bound, f.Runs = "dfs", -1, 400000
+				scs = append(scs, &f)
+			}
+		}
+	}
 	// 2. preemption-bounded DFS for 3 and 4 tasks with every (task, step) fault
 	for _, n := range []int{3, 4} {
 		for _, side := range []string{"enc", "dec"} {
